@@ -400,7 +400,33 @@ func (q *rawQueue) Dequeue() (string, error) {
 func (q *rawQueue) Size() int { return q.n }
 func (q *rawQueue) Clear()    { q.head, q.n = 0, 0 }
 
+// scenarioParked: every goroutine running a scenario method (runScenario.func1 on its stack) is blocked on a lock, a
+// channel, a condition variable or a wait group -- and there is at least one such goroutine.
+func scenarioParked() bool {
+	buf := make([]byte, 4<<20)
+	n := runtime.Stack(buf, true)
+	seen := false
+	for _, g := range strings.Split(string(buf[:n]), "\n\n") {
+		if !strings.Contains(g, "runScenario.func1") {
+			continue
+		}
+		head, _, _ := strings.Cut(g, "\n")
+		blocked := false
+		for _, st := range []string{"semacquire", "sync.Mutex.Lock", "sync.RWMutex.RLock", "sync.RWMutex.Lock", "chan send", "chan receive", "select", "sync.Cond.Wait", "sync.WaitGroup.Wait"} {
+			if strings.Contains(head, "["+st) {
+				blocked = true
+			}
+		}
+		if !blocked {
+			return false
+		}
+		seen = true
+	}
+	return seen
+}
+
 func runScenario(t ctype, ms []method, initial int, calls int, r *SplitMix) string {
+	var progress atomic.Int64
 	inst := t.mk(initial)
 	var wg sync.WaitGroup
 	start := make(chan struct{})
@@ -431,16 +457,39 @@ func runScenario(t ctype, ms []method, initial int, calls int, r *SplitMix) stri
 					runtime.Gosched()
 				}
 				m.call(inst, gr)
+				progress.Add(1)
 			}
 		}()
 	}
 	close(start)
 	done := make(chan struct{})
 	go func() { wg.Wait(); close(done) }()
-	select {
-	case <-done:
-	case <-time.After(20 * time.Second):
-		return "STALL: the calls did not return within 20s"
+	// A stall is a STATE, not a time-out (a starved process looks slow, not stuck): it is reported only when, over
+	// sixteen consecutive samples a quarter of a second apart, no call has completed AND every scenario goroutine that
+	// is still alive is parked on a lock, a channel or a condition (none is running, runnable or sleeping).  A scenario
+	// that merely takes long gets no verdict (`slow`, after ten minutes).
+	stuck, last := 0, int64(-1)
+	deadline := time.Now().Add(10 * time.Minute)
+wait:
+	for {
+		select {
+		case <-done:
+			break wait
+		case <-time.After(250 * time.Millisecond):
+			if time.Now().After(deadline) {
+				return "" // slow: no verdict
+			}
+			p := progress.Load()
+			if p == last && scenarioParked() {
+				stuck++
+			} else {
+				stuck = 0
+			}
+			last = p
+			if stuck >= 16 {
+				return "STALL: no call completes and every goroutine of the scenario is parked on a lock or channel"
+			}
+		}
 	}
 	if failure != "" {
 		return failure
